@@ -65,6 +65,7 @@ struct ConcPlan
     std::vector<uint32_t> susp; // ordinals of "locked code running unlocked" executions to preempt at
     uint32_t              relock_stall{0};
     std::vector<uint32_t> shared; // ordinals of basic blocks executed under a shared (reader) hold to preempt at
+    std::vector<uint32_t> hold;   // ordinals of basic blocks executed under the caller's own exclusive hold to preempt at
     std::string           note; // e.g. the method pair of a matrix plan
 
     js::Value to_json() const
@@ -147,6 +148,13 @@ struct ConcPlan
                 f.push(js::Value::integer(x));
             s.set("shared", std::move(f));
         }
+        if (!hold.empty())
+        {
+            auto f = js::Value::array();
+            for (auto x : hold)
+                f.push(js::Value::integer(x));
+            s.set("hold", std::move(f));
+        }
         v.set("sched", std::move(s));
         return v;
     }
@@ -200,6 +208,7 @@ struct ConcPlan
         fine.clear();
         susp.clear();
         shared.clear();
+        hold.clear();
         relock_stall = 0;
         stall_client = -1;
         if (auto* s = v.get("sched"))
@@ -231,6 +240,9 @@ struct ConcPlan
             if (auto* f = s->get("shared"))
                 for (auto& x : f->a)
                     shared.push_back((uint32_t)x.i);
+            if (auto* f = s->get("hold"))
+                for (auto& x : f->a)
+                    hold.push_back((uint32_t)x.i);
         }
         normalize();
         return true;
@@ -325,6 +337,8 @@ struct ConcPlan
         susp.erase(std::unique(susp.begin(), susp.end()), susp.end());
         std::sort(shared.begin(), shared.end());
         shared.erase(std::unique(shared.begin(), shared.end()), shared.end());
+        std::sort(hold.begin(), hold.end());
+        hold.erase(std::unique(hold.begin(), hold.end()), hold.end());
     }
 };
 
@@ -636,6 +650,8 @@ struct ConcRun
         spec.relock_stall  = plan.relock_stall;
         spec.shared        = plan.shared.data();
         spec.nshared       = plan.shared.size();
+        spec.hold          = plan.hold.data();
+        spec.nhold         = plan.hold.size();
         spec.obj_lo        = box->obj_addr();
         spec.obj_hi        = (const char*)box->obj_addr() + box->obj_size();
         sched::begin_run(spec);
@@ -692,6 +708,8 @@ struct ConcRun
         out.st.bump("probe.busy_wait_yields", sched::spin_yields());
         out.st.bump("fault.preempt_under_shared_hold", sched::shared_fired());
         out.st.bump("probe.basic_blocks_under_shared_hold", sched::shared_seen());
+        out.st.bump("fault.preempt_under_exclusive_hold", sched::hold_fired());
+        out.st.bump("probe.basic_blocks_under_exclusive_hold", sched::hold_seen());
 
         std::map<std::tuple<int, int, int>, size_t> where; // (client, epoch, idx) -> hist index
         for (size_t e = 0; e < plan.epochs.size(); ++e)
@@ -749,6 +767,9 @@ struct ConcRun
             {
                 note(o.res);
                 ++out.st.calls;
+                // (capacity() is a constant and legitimately lock-free in five containers)
+                if (o.completed && !o.has_lock && o.op.kind != OpKind::capacity)
+                    out.st.bump("probe.calls_that_never_took_the_lock");
                 if (!o.completed)
                     o.ret = UINT32_MAX;
             }
@@ -1936,6 +1957,13 @@ size_t conc_shrink_json(js::Value& pj, const std::function<bool(const js::Value&
         {
             ConcPlan c = plan;
             c.shared.clear();
+            if (try_plan(c))
+                progress = true;
+        }
+        if (!plan.hold.empty())
+        {
+            ConcPlan c = plan;
+            c.hold.clear();
             if (try_plan(c))
                 progress = true;
         }
